@@ -162,3 +162,134 @@ func fixtureReach(c *Ctx, prefix string, pred func(ir.Effect) bool) int {
 	}
 	return n
 }
+
+// mutatingSites lists the instructions of f that are, or may lead to, a state mutation:
+// direct store/bank effects and calls whose in-scope callees reach one.
+func mutatingSites(c *Ctx, f *ssa.Function, isMut func(ir.Effect) bool) []ssa.Instruction {
+	var out []ssa.Instruction
+	direct := map[ssa.Instruction]bool{}
+	for _, e := range c.W.EffectsOf(f) {
+		if isMut(e) {
+			direct[e.Site] = true
+		}
+	}
+	for _, b := range f.Blocks {
+		for _, in := range b.Instrs {
+			if direct[in] {
+				out = append(out, in)
+				continue
+			}
+			call, ok := in.(ssa.CallInstruction)
+			if !ok {
+				continue
+			}
+			for _, t := range c.W.CalleesOf(call) {
+				if reachesEffect(c, t, isMut) {
+					out = append(out, in)
+					break
+				}
+			}
+		}
+	}
+	return out
+}
+
+func reachesEffect(c *Ctx, f *ssa.Function, pred func(ir.Effect) bool) bool {
+	for g := range c.W.Reachable([]*ssa.Function{f}) {
+		for _, e := range c.W.EffectsOf(g) {
+			if pred(e) {
+				return true
+			}
+		}
+	}
+	return false
+}
+
+func isStateMutation(e ir.Effect) bool {
+	switch e.Kind {
+	case "StoreWrite", "StoreDelete", "Mint", "Burn", "Bank":
+		return true
+	}
+	return false
+}
+
+// Inst is an effect reachable from a root, with an expression (key, argument, ...) instantiated
+// in the root's terms along one call chain.
+type Inst struct {
+	Eff   ir.Effect
+	E     *ir.Expr
+	Chain []ssa.Instruction
+}
+
+// instantiate computes, for every effect accepted by pred and reachable from root through
+// direct calls, the expression sel(effect) expressed in root's parameters.
+func instantiate(c *Ctx, root *ssa.Function, pred func(ir.Effect) bool, sel func(ir.Effect) *ir.Expr) []Inst {
+	var out []Inst
+	reach := c.W.Reachable([]*ssa.Function{root})
+	var fs []*ssa.Function
+	for f := range reach {
+		fs = append(fs, f)
+	}
+	sort.Slice(fs, func(i, j int) bool { return fn(fs[i]) < fn(fs[j]) })
+	for _, f := range fs {
+		for _, e := range c.W.EffectsOf(f) {
+			if !pred(e) {
+				continue
+			}
+			x := sel(e)
+			if x == nil {
+				continue
+			}
+			if f == root {
+				out = append(out, Inst{Eff: e, E: x})
+				continue
+			}
+			for _, up := range c.W.OriginsUpTo(f, x, root, 8) {
+				out = append(out, Inst{Eff: e, E: up.E, Chain: up.Chain})
+			}
+		}
+	}
+	return out
+}
+
+// isAddrOf: e is AccAddressFromBech32(<base>.<field>)#0 for a parameter base.
+func isAddrOf(e *ir.Expr, field string) bool {
+	if e == nil || e.Op != "res" || e.Name != "0" || len(e.Args) != 1 {
+		return false
+	}
+	c := e.Args[0]
+	if c.Op != "call" || !strings.HasSuffix(c.Name, "types.AccAddressFromBech32") || len(c.Args) != 1 {
+		return false
+	}
+	a := c.Args[0]
+	return a.Op == "field" && a.Name == field && len(a.Args) == 1 && a.Args[0].Op == "param"
+}
+
+// isMsgField: e is <param>.<field>.
+func isMsgField(e *ir.Expr, field string) bool {
+	return e != nil && e.Op == "field" && e.Name == field && len(e.Args) == 1 && e.Args[0].Op == "param"
+}
+
+// mentionsStateField: the expression mentions <state:section(...)>.<field>.
+func mentionsStateField(e *ir.Expr, section, field string) *ir.Expr {
+	var found *ir.Expr
+	e.Walk(func(x *ir.Expr) bool {
+		if found != nil {
+			return false
+		}
+		if isStateField(x, section, field) {
+			found = x
+			return false
+		}
+		return true
+	})
+	return found
+}
+
+// keyArgs returns the arguments of the key-builder call of a state/key expression.
+func keyArgs(key *ir.Expr) []*ir.Expr {
+	if key != nil && key.Op == "call" {
+		return key.Args
+	}
+	return nil
+}
